@@ -43,3 +43,55 @@ def FnOrigin.resolvableByName : FnOrigin → Bool
   | _ => false
 
 end Pg.C05
+
+namespace Pg.C05
+
+/-! ### Loading functions written by code: `_function_from_json` (755-770) -/
+
+/-- What the JSON of a by-code function carries: the code payload and, separately, the defaults. -/
+structure FnJ where
+  code : Nat
+  defaults : List Int
+  deriving DecidableEq, Repr, Inhabited
+
+/-- One load. With `memo`, a function once rebuilt is remembered in a process-level table keyed by
+the code payload alone (the shape of seeded change C05-10); without, it is rebuilt from its own
+JSON every time. -/
+def loadFn (memo : Bool) (table : List (Nat × FnJ)) (j : FnJ) : List (Nat × FnJ) × FnJ :=
+  if memo then
+    match table.find? (fun p => p.1 == j.code) with
+    | some p => (table, p.2)
+    | none => ((j.code, j) :: table, j)
+  else (table, j)
+
+/-- The loads of a process, in order (one value with several functions, several files, jsonl records …). -/
+def loadAll (memo : Bool) : List (Nat × FnJ) → List FnJ → List (Nat × FnJ) × List FnJ
+  | table, [] => (table, [])
+  | table, j :: js =>
+    let (t1, f) := loadFn memo table j
+    let (t2, fs) := loadAll memo t1 js
+    (t2, f :: fs)
+
+end Pg.C05
+
+namespace Pg.C05
+
+/-! ### Class methods: `_method_to_json` / `_method_from_json` -/
+
+/-- A class method as a value: the class that defines it, the class it is bound to (`__self__`:
+the same, or a subclass that inherits it), its name. -/
+structure MethodRef where
+  defining : List Char
+  bound : List Char
+  name : List Char
+  deriving DecidableEq, Repr, Inhabited
+
+/-- The written name: class and attribute. -/
+def writeMethod (namesBound : Bool) (m : MethodRef) : List Char × List Char :=
+  (if namesBound then m.bound else m.defining, m.name)
+
+/-- `_load_symbol`: the attribute of the named class — a method bound to THAT class (the class
+that defines it does not change: the named class is the defining class or inherits from it). -/
+def loadMethod (m : MethodRef) (w : List Char × List Char) : MethodRef := ⟨m.defining, w.1, w.2⟩
+
+end Pg.C05
